@@ -321,6 +321,9 @@ def check_grid_tables(ctx, ck, g, gfl):
         for p_ in SymExec(ctx, w, bind_loops=True, no_expand=wq_ - {q}, max_paths=5000).run():
             if p_.end == 'raise':
                 continue
+            from ..lines import opaque_text
+            if opaque_text(p_):
+                raise AnalysisError('%s: the report text comes from %s, which is not followed' % (q, opaque_text(p_)))
             ent = [t_ for k_, t_ in p_.conds if k_ == 'loop' and ranges_over(t_, fld)]
             skp = [t_ for k_, t_ in p_.conds if k_ == 'loop-skipped' and ranges_over(t_, fld)]
             L = lines_with_loops(p_)
